@@ -428,6 +428,25 @@ Section ErrFacts.
   Variable note : pyexc -> V.
   Variable callee_hook : hook.      (* the callee application's onUserError: arbitrary *)
 
+  (* an exception raised on the call-cancelling path still produces the ERROR: INTERRUPTs do not remove the record *)
+  Lemma interrupted_failure_sends : forall table n r tba tbv req (e : exn) sr,
+    existsb (N.eqb req) table = true ->
+    snd (interrupted_failure (MV:=MV) note table n callee_hook r tba tbv req e sr)
+      = Ok (invocation_error note callee_hook r tba tbv req e sr) /\
+    existsb (N.eqb req) (fst (interrupted_failure (MV:=MV) note table n callee_hook r tba tbv req e sr)) = false.
+  Proof.
+    intros table n r tba tbv req e sr H. unfold interrupted_failure, fail_invocation.
+    assert (Hi : Nat.iter n (fun t => on_interrupt t req) table = table) by (induction n; simpl; [reflexivity | exact IHn]).
+    rewrite Hi, H. simpl. split; [reflexivity|].
+    induction table as [|x t IH]; simpl; [reflexivity|].
+    destruct (N.eqb x req) eqn:E; simpl.
+    - clear IH H Hi. induction t as [|y t IH]; simpl; [reflexivity|].
+      destruct (N.eqb y req) eqn:Ey; simpl; [exact IH|]. rewrite N.eqb_sym, Ey. simpl. exact IH.
+    - rewrite N.eqb_sym, E. simpl.
+      clear IH H Hi. induction t as [|y t IH]; simpl; [reflexivity|].
+      destruct (N.eqb y req) eqn:Ey; simpl; [exact IH|]. rewrite N.eqb_sym, Ey. simpl. exact IH.
+  Qed.
+
   (* the ERROR as the caller's session sees it *)
   Definition caller_view (callee_reg : registry) (traceback_app : bool) (tbv : option V) (e : exn)
              (call_req : N) (meta : string -> option MV) : errmsg :=
